@@ -33,11 +33,17 @@ def jobOfJson (j : Json) : Except String Job := do
   let tmp ← (← j.getObjVal? "tmp").getStr?
   let chunks ← strList (← j.getObjVal? "chunks")
   let style ← (← j.getObjVal? "style").getStr?
-  let body ← match style with
-    | "stream" => pure (streamBody 1 chunks)
-    | "object" => pure (objectBody chunks)
+  -- StreamRewriter closes the source after the temp file, ObjectRewriter right after `load`
+  let (body, early) ← match style with
+    | "stream" => pure (streamBody 1 chunks, false)
+    | "object" => pure (objectBody chunks, true)
     | s => throw s!"unknown style {s}"
-  pure { src, out, tmp, body }
+  -- `dst`: the in path's last component is a symlink; the link's own directory entry
+  let dst ← match j.getObjVal? "dst" with
+    | .ok .null => pure none
+    | .ok d => do pure (some (← d.getStr?))
+    | .error _ => pure none
+  pure { src, out, tmp, body, early, dst }
 
 /-- links on the wire: `{"entry": [[spelling, entry]], "ino": [[entry, id]]}` (keys distinct). -/
 def linksOfJson (j : Json) : Except String Links := do
@@ -61,10 +67,11 @@ def routesOf : Links → Fs → List Job → List String
 
 def faultOfStr : String → Except String Fault
   | "raise" => pure .raise
+  | "raiseBase" => pure .raiseBase
   | "kill" => pure .kill
   | s => throw s!"unknown fault kind {s}"
 
-/-- plan on the wire: list of `[index, "raise"|"kill"]` (distinct indices). -/
+/-- plan on the wire: list of `[index, "raise"|"raiseBase"|"kill"]` (distinct indices). -/
 def planOfJson (j : Json) : Except String Plan := do
   let entries ← (← j.getArr?).toList.mapM fun p => do
     match p with
@@ -86,12 +93,15 @@ def endOfStr : String → Except String End
   | s => throw s!"unknown end {s}"
 
 def verdictToJson (v : Verdict) : Json :=
-  Json.mkObj [("holds", v.holds), ("srcWhole", v.srcWhole), ("okAllNew", v.okAllNew),
-    ("noExtra", v.noExtra), ("noneMissing", v.noneMissing), ("unmatchedSame", v.unmatchedSame)]
+  Json.mkObj [("holds", v.holds), ("holdsDirty", v.holdsDirty), ("srcWhole", v.srcWhole), ("okAllNew", v.okAllNew),
+    ("noExtra", v.noExtra), ("noneMissing", v.noneMissing), ("unmatchedSame", v.unmatchedSame),
+    ("onlyTempExtra", v.onlyTempExtra)]
 
 /-- ops:
-    `run`   {fs, jobs, plan, cleanup?, links?, outopt?} → {outcome, final, events, routes, wholeEverywhere, outplan}
-            (`links` absent = no link table: a name is its own inode; job `out` is a path spelling)
+    `run`   {fs, jobs, plan, cleanup?, cleanupBase?, closeInTry?, links?, outopt?} → {outcome, final, events, routes, wholeEverywhere, outplan}
+            (`links` absent = no link table: a name is its own inode; job `out` is a path spelling;
+             job = {src, out?, tmp, chunks, style: stream|object, dst?}: `dst` = the link's own entry when the in
+             path's last component is a symlink; sources may repeat; plan kinds raise | raiseBase | kill)
     `judge` {before, after, srcs: [[name, newBytes]], end} → verdict of the C15 monitor. -/
 def handle (op : String) (j : Json) : Except String Json := do
   match op with
@@ -102,6 +112,13 @@ def handle (op : String) (j : Json) : Except String Json := do
     let cleanup ← match j.getObjVal? "cleanup" with
       | .ok b => b.getBool?
       | .error _ => pure true
+    -- the earlier `except` arrangements (default: the code as it is now)
+    let cleanupBase ← match j.getObjVal? "cleanupBase" with
+      | .ok b => b.getBool?
+      | .error _ => pure true
+    let closeInTry ← match j.getObjVal? "closeInTry" with
+      | .ok b => b.getBool?
+      | .error _ => pure true
     let links ← match j.getObjVal? "links" with
       | .ok .null => pure ({} : Links)
       | .ok lj => linksOfJson lj
@@ -110,6 +127,11 @@ def handle (op : String) (j : Json) : Except String Json := do
       if fs.contains jb.tmp then throw s!"temp name {jb.tmp} not fresh"
       if jobs.any (·.src == jb.tmp) then throw s!"temp name {jb.tmp} is a source"
       if links.resolve jb.src != jb.src then throw s!"source {jb.src} is not a resolved entry"
+      match jb.dst with
+      | none => pure ()
+      | some d =>
+        if fs.contains d then throw s!"link entry {d} is a regular file"
+        if d == jb.tmp then throw s!"link entry {d} is the temp name"
     for e in links.ino do
       if !fs.contains e.1 then throw s!"ino names {e.1}, not in fs"
     for e in links.entry do
@@ -146,9 +168,11 @@ def handle (op : String) (j : Json) : Except String Json := do
       return Json.mkObj [
         ("outcome", outcomeToJson (.raised 0)), ("final", fsToJson fs), ("events", Json.arr #[]),
         ("routes", Json.arr #[]), ("wholeEverywhere", true), ("outplan", planName)]
-    let r := runJobsL { cleanupWrite := cleanup } plan 0 links fs jobs
+    let r := runJobsL { cleanupWrite := cleanup, cleanupBase, closeInTry } plan 0 links fs jobs
     -- the monitor evaluated on every state of the model's own trace (sanity, also proved)
-    let srcs := jobs.map fun jb => (jb.src, newContent jb.body)
+    -- (jobs whose in path is a symlink replace the link, not a regular file of `fs`: not part of this sanity check)
+    let srcs := (jobs.filter fun jb => jb.dst.isNone && (route links fs jb).isNone).map
+      fun jb => (jb.src, newContent jb.body)
     let whole := r.2.all fun ev => (judge fs ev.2 srcs .killed).srcWhole
     pure (Json.mkObj [
       ("outcome", outcomeToJson r.1),
@@ -159,7 +183,11 @@ def handle (op : String) (j : Json) : Except String Json := do
   | "judge" =>
     let before ← fsOfJson (← j.getObjVal? "before")
     let after ← fsOfJson (← j.getObjVal? "after")
-    let srcs ← fsOfJson (← j.getObjVal? "srcs")
+    -- [[name, newBytes]], one pair per rewrite: a source matched more than once appears more than once
+    let srcs ← (← (← j.getObjVal? "srcs").getArr?).toList.mapM fun p => do
+      match p with
+      | .arr #[k, v] => pure ((← k.getStr?), (← v.getStr?))
+      | _ => throw "srcs entry must be [name, bytes]"
     let e ← endOfStr (← (← j.getObjVal? "end").getStr?)
     pure (verdictToJson (judge before after srcs e))
   | _ => .error s!"unknown op {op}"
